@@ -30,7 +30,7 @@ KEY_FEATURES = ('arm', 'op', 'domain')
 
 
 def plan(tier, seed):
-    return C.plan_counts(tier, 16 * 2500, 16 * 60000)
+    return C.plan_counts(tier, 16 * 5000, 16 * 60000)
 
 
 # ------------------------------------------------------------------ (a) denotation
